@@ -172,6 +172,11 @@ class FuncInfo(ast.NodeVisitor):
         if name in ("Iterate", "StepResult"):
             args = [ast.unparse(a) for a in node.args]
             xarg = args[2] if name == "Iterate" and len(args) > 2 else (args[1] if name == "StepResult" and len(args) > 1 else ",".join(args))
+            if name == "Iterate" and len(node.args) > 2 and isinstance(node.args[2], ast.Name):
+                # a local name: say what it is bound to (every assignment in the function, flow-insensitive)
+                rhs = self.assigns.get(node.args[2].id, [])
+                if rhs and rhs != ["<argument>"]:
+                    xarg = xarg + " <- " + " | ".join(rhs)
             self.out["iterate_sites"].append((self.mod, self.qual, name, xarg))
         if isinstance(f, ast.Attribute) and f.attr in CALLBACKS and node.args:
             self.out["eval_sites"].append((self.mod, self.qual, ast.unparse(f.value), f.attr, ast.unparse(node.args[0])))
